@@ -86,6 +86,7 @@ func check(args []string) int {
 	prop := fs.String("prop", "", "property id")
 	tier := fs.String("tier", "quick", "quick or thorough")
 	noEvidence := fs.Bool("no-evidence", false, "do not write the evidence file")
+	mutate := fs.String("mutate", "", "self-test only: file§old§new, verify the tree with this textual replacement applied in an overlay")
 	fs.Parse(args)
 	if *prop == "" {
 		fmt.Fprintln(os.Stderr, "check: -prop required")
@@ -104,7 +105,20 @@ func check(args []string) int {
 		fmt.Printf("VIOLATION property=%s replay=%s%s\n", *prop, replay, extra)
 	}
 
-	w, err := vc.Load(*repo, nil)
+	var ov map[string][]byte
+	if *mutate != "" {
+		p := strings.SplitN(*mutate, "§", 3)
+		src, err := os.ReadFile(filepath.Join(*repo, p[0]))
+		if err != nil || len(p) != 3 || !strings.Contains(string(src), p[1]) {
+			fmt.Fprintln(os.Stderr, "check: mutation does not apply")
+			return 2
+		}
+		ov = map[string][]byte{filepath.Join(*repo, p[0]): []byte(strings.Replace(string(src), p[1], p[2], 1))}
+		*noEvidence = true
+		replayDir = filepath.Join(os.TempDir(), "ionvc-selftest-replays")
+		os.MkdirAll(replayDir, 0o755)
+	}
+	w, err := vc.Load(*repo, ov)
 	if err != nil {
 		// the tree does not load (it does not compile under the verif tag, or a contract
 		// expression no longer type-checks against the code): nothing can be proved
@@ -154,6 +168,31 @@ func check(args []string) int {
 		}
 	}
 	runs := runTargets(w, cs, opts, 8)
+	// thorough: every proof is put to a second, independent solver
+	secondAgreed, secondUndecided := 0, 0
+	if *tier == "thorough" {
+		for _, r := range runs {
+			if r.tr.Unsupported != "" {
+				continue
+			}
+			var mine []*vc.OblResult
+			for _, or := range r.rs {
+				if oblHasProp(or.Obl, *prop) {
+					mine = append(mine, or)
+				}
+			}
+			a, u, conflicts := vc.CrossCheck(r.tr, mine, opts, 30)
+			secondAgreed += a
+			secondUndecided += u
+			for _, c := range conflicts {
+				p := filepath.Join(replayDir, *prop+"_solver_disagreement.txt")
+				os.WriteFile(p, []byte("obligation: solver-agreement\n\n"+strings.Join(conflicts, "\n")+"\n"), 0o644)
+				_ = c
+				violation(p, " no-failing-input-found")
+				break
+			}
+		}
+	}
 
 	total, discharged := 0, 0
 	byBackend := map[string]int{}
@@ -162,6 +201,7 @@ func check(args []string) int {
 	var funcs []string
 	var knownPrinted []string
 	var unproved []string
+	var failed []*replayCase
 	notes := map[string]bool{}
 	counts := map[string]int{}
 	for _, r := range runs {
@@ -197,35 +237,61 @@ func check(args []string) int {
 				continue
 			}
 			unproved = append(unproved, or.Obl.Name)
-			p := filepath.Join(replayDir, *prop+"_"+sanitize(or.Obl.Name)+".txt")
-			var sb strings.Builder
-			fmt.Fprintf(&sb, "obligation: %s\nkind: %s\nproperty: %s\nfunction: %s\nclause: %s\nposition: %s\nstatus: %s (%s)\n\n", or.Obl.Name, or.Obl.Kind,
-				*prop, r.tr.Name, or.Obl.Detail, or.Obl.Pos, or.Status, or.Solver)
-			extra := " no-failing-input-found"
-			if or.Obl.Cover {
-				sb.WriteString("vacuity: the contract's preconditions (or a callee's assumed postcondition) admit no returning execution\n")
-			}
-			if len(or.Model) > 0 {
-				sb.WriteString("counterexample (inputs of the function under contract):\n")
-				var ks []string
-				for k := range or.Model {
-					ks = append(ks, k)
-				}
-				sort.Strings(ks)
-				for _, k := range ks {
-					fmt.Fprintf(&sb, "  %s = %s\n", k, or.Model[k])
-				}
-				if ok, out := replay(w, r, or, tmp); ok {
-					extra = ""
-					sb.WriteString("\nreplay against the real code: CONFIRMED\n" + out)
-				} else if out != "" {
-					sb.WriteString("\nreplay against the real code: not reproduced\n" + out)
-				}
-			}
-			sb.WriteString("\nsolver output:\n" + or.Raw + "\n")
-			os.WriteFile(p, []byte(sb.String()), 0o644)
-			violation(p, extra)
+			failed = append(failed, &replayCase{run: r, res: or, id: len(failed)})
 		}
+	}
+	// replay every counterexample in one run of the real package, then report
+	var withModel []*replayCase
+	for _, fc := range failed {
+		if len(fc.res.Model) > 0 && !fc.res.Obl.Cover {
+			withModel = append(withModel, fc)
+		} else {
+			fc.skip = "the solver gave no model"
+		}
+	}
+	replayErr := ""
+	if len(withModel) > 0 {
+		replayErr = replayBatch(w, *repo, withModel, tmp)
+	}
+	confirmedN := 0
+	for _, fc := range failed {
+		or, r := fc.res, fc.run
+		p := filepath.Join(replayDir, *prop+"_"+sanitize(or.Obl.Name)+".txt")
+		var sb strings.Builder
+		fmt.Fprintf(&sb, "obligation: %s\nkind: %s\nproperty: %s\nfunction: %s\nclause: %s\nposition: %s\nstatus: %s (%s)\n\n", or.Obl.Name, or.Obl.Kind,
+			*prop, r.tr.Name, or.Obl.Detail, or.Obl.Pos, or.Status, or.Solver)
+		extra := " no-failing-input-found"
+		if or.Obl.Cover {
+			sb.WriteString("vacuity: the contract's preconditions (or a callee's assumed postcondition) admit no returning execution\n")
+		}
+		if len(or.Model) > 0 {
+			sb.WriteString("counterexample (solver model of the inputs of the function under contract):\n")
+			var ks []string
+			for k := range or.Model {
+				ks = append(ks, k)
+			}
+			sort.Strings(ks)
+			for _, k := range ks {
+				fmt.Fprintf(&sb, "  %s = %s\n", k, or.Model[k])
+			}
+		}
+		switch {
+		case fc.skip != "":
+			fmt.Fprintf(&sb, "\nreplay against the real code: not attempted (%s)\n", fc.skip)
+		case fc.confirmed():
+			extra = ""
+			confirmedN++
+			fmt.Fprintf(&sb, "\nreplay against the real code: CONFIRMED\n  call: %s(%s)\n", r.c.FuncID, strings.Join(fc.inputs, "; "))
+			fmt.Fprintf(&sb, "  outcome: %s\n", fc.outcome)
+		default:
+			fmt.Fprintf(&sb, "\nreplay against the real code: not reproduced\n  call: %s(%s)\n  outcome: %s\n", r.c.FuncID, strings.Join(fc.inputs, "; "), fc.outcome)
+			if replayErr != "" {
+				sb.WriteString("  " + strings.ReplaceAll(replayErr, "\n", "\n  ") + "\n")
+			}
+		}
+		sb.WriteString("\nsolver output:\n" + or.Raw + "\n")
+		os.WriteFile(p, []byte(sb.String()), 0o644)
+		violation(p, extra)
 	}
 	// vacuity guard: every locked target still yields at least its locked number of obligations
 	if lp, ok := lock[*prop]; ok {
@@ -249,14 +315,21 @@ func check(args []string) int {
 	}
 	cov := map[string]interface{}{
 		"obligations": total, "discharged": discharged,
-		"checker_cmd":              fmt.Sprintf("bin/ionvc check -prop %s -tier %s", *prop, *tier),
-		"functions_under_contract": funcs,
-		"by_backend":               byBackend,
-		"solver_time_s":            solverTime,
-		"samples":                  samples,
-		"known_findings":           knownPrinted,
-		"undischarged":             unproved,
-		"load_s":                   w.LoadTime.Seconds(),
+		"checker_cmd":                        fmt.Sprintf("bin/ionvc check -prop %s -tier %s", *prop, *tier),
+		"functions_under_contract":           funcs,
+		"by_backend":                         byBackend,
+		"solver_time_s":                      solverTime,
+		"samples":                            samples,
+		"known_findings":                     knownPrinted,
+		"undischarged":                       unproved,
+		"second_solver_agreed":               secondAgreed,
+		"second_solver_undecided":            secondUndecided,
+		"counterexamples_replayed_confirmed": confirmedN,
+		"load_s":                             w.LoadTime.Seconds(),
+	}
+	if *tier != "thorough" {
+		delete(cov, "second_solver_agreed")
+		delete(cov, "second_solver_undecided")
 	}
 	var ns []string
 	for n := range notes {
@@ -319,11 +392,6 @@ func writeEvidence(verif, prop, tier string, seed int, cov map[string]interface{
 	data, _ := json.MarshalIndent(ev, "", " ")
 	os.MkdirAll(filepath.Join(verif, "evidence"), 0o755)
 	os.WriteFile(filepath.Join(verif, "evidence", prop+".json"), append(data, '\n'), 0o644)
-}
-
-// replay turns a solver model into a run of the real code (see replay.go).
-func replay(w *vc.World, r *targetRun, or *vc.OblResult, tmp string) (bool, string) {
-	return false, ""
 }
 
 // lockCmd writes obligations.lock.json from the current tree.
